@@ -784,11 +784,11 @@ theorem C19_writer_crash (h0 : Hdr) (hw0 : h0.WF) (hc0 : h0.count = 0) (vb : Byt
             rw [himg]; exact this
 
 
-/-- **C19, a writer session in which a write failed and the session was then closed.** `write_points` counts
-    the points before handing them to the destination, so after a write that stored only the first `m` bytes
-    of the record area and raised, the clean-up (`close`, from the with-block) rewrites the header advertising
-    `n` records - all of `recs` as the code stands, at most that in any case - over a record area that holds
-    `recs.flatten.take m`; no EVLR is written. Whatever number `k`
+/-- **C19, a writer session in which a write failed and the session was then closed.** After a write that
+    stored only the first `m` bytes of the record area and raised, the clean-up (`close`, from the with-block)
+    rewrites the header advertising `n` records - those of the chunks written completely, since `write_points`
+    counts after the write (it used to count before it: defect D19, fixed); at most `recs.length` in any case -
+    over a record area that holds `recs.flatten.take m`; no EVLR is written. Whatever number `k`
     of bytes of that write stream reached the destination, reading it fails or returns a prefix of `recs`. -/
 theorem C19_writer_crash_torn (h0 : Hdr) (hw0 : h0.WF) (hc0 : h0.count = 0) (vb : Bytes)
     (byReturn doubles : List Nat) (evlrStart nEvlrs : Nat) (recs : List Rec) (n : Nat) (hn : n ≤ recs.length)
